@@ -1289,6 +1289,30 @@ func genCase(r *gen.Rand) *CaseIn {
 		return &Cond{Op: gen.Pick(r, ops), Col: col, Lit: pickLit(col), Flip: r.Chance(1, 6), Paren: r.Chance(1, 8)}
 	}
 	in.Cond = genCond(r.Intn(4))
+	// point lookups: a conjunction of equalities on EVERY key column with the values of one stored row (the commonest
+	// query form; with three key columns it drives the exclusion search through the left-bound and the right-bound
+	// rectangle of one range with the same shared range slice)
+	if !textMode && !litMode && r.Chance(1, 6) {
+		row := rows[r.Intn(n)]
+		okRow := true
+		for c := 0; c < nk; c++ {
+			if row[c].null {
+				okRow = false
+			}
+		}
+		if okRow {
+			var pc *Cond
+			for c := 0; c < nk; c++ {
+				eq := &Cond{Op: "=", Col: c, Lit: *fmtVal(in.Types[c], row[c])}
+				if pc == nil {
+					pc = eq
+				} else {
+					pc = &Cond{Op: "and", Args: []*Cond{pc, eq}}
+				}
+			}
+			in.Cond = pc
+		}
+	}
 	in.TimeCond = r.Chance(1, 6)
 	in.Coarse = gen.Pick(r, []int{2, 2, 3, 4, 8, 8, 16})
 	in.MinRows = gen.Pick(r, []int{0, 0, 1, in.RPF, 2 * in.RPF, 3*in.RPF + 1, 100})
